@@ -331,3 +331,13 @@ func parseValue(out string) uint64 {
 	}
 	return 0
 }
+
+// CheckFresh decides (pc ∧ t) from a clean solver state.
+func (s *Solver) CheckFresh(pc []*Term, t *Term) SatResult {
+	s.Reset()
+	for _, a := range pc {
+		s.Assert(a)
+	}
+	s.Assert(t)
+	return s.Check()
+}
